@@ -4,7 +4,7 @@
    event's cursor takes that consumer to the never-disconnected consumer of the later state. *)
 From Coq Require Import Sorted.
 From BV Require Import Base.Prelude Model.Block Model.ForkDB Model.Forkable Model.ForkableLookups Model.Burst Model.Hub
-  Spec.Consumer Spec.Universe Check.Fk_Check Check.Burst_Check Spec.C09_Spec Spec.C05_Spec
+  Spec.Consumer Spec.Universe Check.Fk_Check Check.Burst_Check Spec.C09_Spec Spec.C05_Spec Spec.C05_History_Spec
   Proofs.C09_Store Proofs.C09_Segment Proofs.C09_Proofs Proofs.C05_Fast Proofs.C05_Forked
   Proofs.Fk.StoreFacts Proofs.Fk.WalkFacts Proofs.Fk.LoopFacts Proofs.Fk.StoreChange Proofs.Fk.SwitchFacts
   Proofs.Fk.FixedLib Proofs.Fk.MovingLibStore Proofs.Fk.MovingLibWalk Proofs.Fk.MovingLibLoops
@@ -247,28 +247,7 @@ Section Life.
     (* what the single-state C05 theorems (c05_fast_path_consumer_partial, c05_forked_path, c05_resume_partial,
        c05_serves) assume, for the cursor of the event e in this state *)
     Definition MeetsHyps (e : event) (ck : cons) (P Q : list block) (hd : block) (sg : list seg) : Prop :=
-      let cur := ev_cursor e in
-      wf_state s /\ good_seg sg /\ seg_stored (db s) sg /\
-      (* the cursor LIB is on the retained chain with its number *)
-      (exists x, In x sg /\ sid x = ri (cu_lib cur) /\ snum x = rn (cu_lib cur)) /\
-      (* the cursor block, if retained, is stored under the number the cursor carries *)
-      (forall e0, find (ri (cu_blk cur)) (store (db s)) = Some e0 -> bnum (eb e0) = rn (cu_blk cur)) /\
-      (* the consumer at the cursor; the blocks it holds up to the cursor LIB are P *)
-      cs_stack ck = rev (P ++ Q) /\
-      length (filter (fun b => bnum b <=? rn (elib e)) (cs_stack ck)) = length P /\
-      (* the never-disconnected consumer of this state *)
-      rev (P ++ map seg_blk (above_seg cur sg)) = S /\
-      (length P + length (filter (final_now s) (above_seg cur sg)))%nat = length Fin /\
-      (* cursor block on the retained chain: the fast path *)
-      (block_in (ri (cu_blk cur)) sg = true ->
-         map seg_blk (held_seg cur sg) = Q /\ (held_seg cur sg = [] -> stack_links P (above_seg cur sg))) /\
-      (* cursor block off the chain: the branch down to the junction *)
-      (block_in (ri (cu_blk cur)) sg = false ->
-         forall path j je, branch_to (db s) sg (ri (cu_blk cur)) path j -> find j (store (db s)) = Some je ->
-           let jc := junction_cursor hd cur (mkR j (bnum (eb je))) in
-           Q = map seg_blk (held_seg jc sg) ++ map seg_blk (rev (undos_of cur path)) /\
-           (held_seg jc sg = [] -> stack_links P (above_seg jc sg)) /\
-           rn (cu_lib cur) <= bnum (eb je)).
+      C05_meets s S (length Fin) e ck P Q hd sg.
 
     Lemma cursor_meets e ck P Q F0 hd sg :
       CurAt U a e ck P Q (libblk a P) -> Fin = P ++ F0 ->
@@ -279,7 +258,7 @@ Section Life.
       MeetsHyps e ck P Q hd sg.
     Proof.
       intros [Hstack HLU Helib HPf HQf Hlq Hbk Hcb Hnew Hundo] HF Hl0 HF0 Hnu Hls E Hlibin0.
-      unfold MeetsHyps. cbv zeta.
+      unfold MeetsHyps, C05_meets. cbv zeta.
       set (L := libblk a P) in *. set (cur := ev_cursor e) in *.
       assert (Hcl : cu_lib cur = bref L) by exact Helib.
       assert (Hcbk : cu_blk cur = bref (eblk e)) by exact Hcb.
